@@ -9,7 +9,7 @@
     [le], [lt] are the order of [Ops]; [canon x j] says xs[j] <= x < xs[j+1], or j = N-2 and
     x <= xs[N-1]; [seg x j] says xs[j] <= x <= xs[j+1]. *)
 From Coq Require Import ZArith List.
-From LP Require Import Num OrdLaws C09_Model C09_Proofs.
+From LP Require Import Num OrdLaws C09_Model C09_Proofs C09_Proofs_Ctor.
 Import ListNotations.
 Local Open Scope Z_scope.
 
@@ -212,3 +212,64 @@ Theorem C09_nan_argument_exits :
     (forall k, snd (stepE Ops N xv E st (OpDerivative x k)) = OExit).
 Proof. exact @nan_argument_exits. Qed.
 Print Assumptions C09_nan_argument_exits.
+
+(** The constructors, every overload, with the unit arguments x_dim / y_dim / f_dim ("Set_Prefactor and
+    Multiply change all outputs by exactly the stated factor" must hold for objects built with units too):
+    a unit argument > 0 multiplies the table it belongs to and NOTHING else — the constructed object
+    starts with prefactor 1, jLast 0, correlated_calls false whatever the unit arguments are; the public
+    [domain] is the pair of the first and last scaled abscissa. *)
+Theorem C09_constructor_units_scale_tables_only :
+  forall (T : Type) (Ops : NumOps T) (xs fs : list T) (x_dim f_dim : T) (o : object1 T),
+    construct1 Ops xs fs x_dim f_dim = Ok o ->
+    o_state o = init Ops /\
+    o_xs o = scale_units Ops x_dim xs /\ o_fs o = scale_units Ops f_dim fs /\
+    o_dom o = (nth0 Ops (o_xs o) 0, nth0 Ops (o_xs o) (length xs - 1)) /\
+    length xs = length fs /\ (2 <= length xs)%nat /\ strictly_increasing Ops xs = true.
+Proof. exact @construct1_spec. Qed.
+Print Assumptions C09_constructor_units_scale_tables_only.
+
+(** a unit argument that is not > 0 (the default -1.0, zero, negative values) leaves the table alone *)
+Theorem C09_unit_argument_inactive :
+  forall (T : Type) (Ops : NumOps T) (dim : T) (l : list T),
+    ngtb Ops dim (n0 Ops) = false -> scale_units Ops dim l = l.
+Proof. exact @scale_units_inactive. Qed.
+Print Assumptions C09_unit_argument_inactive.
+
+Theorem C09_constructor_rows_initial_state :
+  forall (T : Type) (Ops : NumOps T) (data : list (list T)) (x_dim f_dim : T) (o : object1 T),
+    construct1_rows Ops data x_dim f_dim = Ok o -> o_state o = init Ops.
+Proof. exact @construct1_rows_state. Qed.
+Print Assumptions C09_constructor_rows_initial_state.
+
+Theorem C09_constructor_2d_units_scale_tables_only :
+  forall (T : Type) (Ops : NumOps T) (xs ys : list T) (f : list (list T)) (x_dim y_dim f_dim : T) (o : object2 T),
+    construct2 Ops xs ys f x_dim y_dim f_dim = Ok o ->
+    o2_state o = init2 Ops /\
+    o2_xs o = scale_units Ops x_dim xs /\ o2_ys o = scale_units Ops y_dim ys /\
+    o2_f o = (if ngtb Ops f_dim (n0 Ops) then map (map (fun v => nmul Ops v f_dim)) f else f).
+Proof. exact @construct2_spec. Qed.
+Print Assumptions C09_constructor_2d_units_scale_tables_only.
+
+Theorem C09_constructor_2d_rows_initial_state :
+  forall (T : Type) (Ops : NumOps T) (data : list (list T)) (x_dim y_dim f_dim : T) (o : object2 T),
+    construct2_rows Ops data x_dim y_dim f_dim = Ok o -> o2_state o = init2 Ops.
+Proof. exact @construct2_rows_state. Qed.
+Print Assumptions C09_constructor_2d_rows_initial_state.
+
+(** Consequently, on an object built with ANY unit arguments, after any history the prefactor is the one
+    determined by the Set_Prefactor / Multiply calls of the history alone (the unit f_dim is not part of
+    it and cannot be lost by Set_Prefactor), and every further operation answers as on a fresh object of
+    the same (scaled) table carrying that prefactor. *)
+Theorem C09_units_do_not_enter_prefactor :
+  forall (T : Type) (Ops : NumOps T), OrdLaws Ops ->
+  forall (xs fs : list T) (x_dim f_dim : T) (o : object1 T),
+    construct1 Ops xs fs x_dim f_dim = Ok o ->
+    let N := Z.of_nat (length (o_xs o)) in
+    let xv := table_of Ops (o_xs o) in
+    increasing Ops N xv -> size_ok N ->
+    forall (E : evals T) (h : list (op T)) (q : op T),
+      prefactor (runE Ops N xv E h (o_state o)) = prefactor_after Ops h (n1 Ops) /\
+      snd (stepE Ops N xv E (runE Ops N xv E h (o_state o)) q) =
+      snd (stepE Ops N xv E (fresh (prefactor_after Ops h (n1 Ops))) q).
+Proof. exact @units_not_in_prefactor. Qed.
+Print Assumptions C09_units_do_not_enter_prefactor.
